@@ -331,6 +331,8 @@ def main():
                                             + ctx.bld.translate_report.get("py2coq_io", {}).get("translated", [])) if ctx.bld else [],
             "source_functions_not_translated": dict(ctx.bld.translate_report.get("py2coq", {}).get("untranslated", {}),
                                                     **ctx.bld.translate_report.get("py2coq_io", {}).get("untranslated", {})) if ctx.bld else {},
+            "source_functions_changed_since_pinned": ctx.bld.translate_report.get("source_drift", []) if ctx.bld else [],
+            "source_functions_restructured_since_pinned": ctx.bld.translate_report.get("restructured", []) if ctx.bld else [],
             "translator_template_mismatches": ctx.bld.translate_report.get("template_mismatches", []) if ctx.bld else [],
             "build_wall_s": round(ctx.bld.wall, 1) if ctx.bld else None,
             "notes": ctx.notes[:20],
